@@ -23,7 +23,13 @@ def run(ctx):
              "tear-down of outstanding guards in every order, late WorkerAvailable, replacement) + counterexamples of the "
              "as-found variant (panic with one worker, spin with three) + two-fault corpus; panics and spins of the real "
              "accept loop are caught and recorded; non-trivial = a worker was killed in the run")
+    import srvload
+    srvload.run(ctx)
 
 
 def replay(ctx, path):
+    import json as _j
+    if _j.load(open(path))["replay"].get("mode") == "e2e-load":
+        import srvload
+        return srvload.replay(ctx, path)
     srvflow.replay(ctx, path, INV)
